@@ -58,6 +58,8 @@ class ParallelSourcePlugin(Plugin):
         for d, p in plugins.items():
             outputs_to_send.update(set(p.depends_on))
         outputs_to_send &= sub_plugins.keys()
+        # An output that is already stored reaches its consumers from its loader
+        outputs_to_send -= components.loaders.keys()
 
         # Inline savers that do not require rechunking
         savers = components.savers
